@@ -39,6 +39,9 @@ class Registry:
         self.axioms = []  # (name, expr string)  TRUSTED
         self.lemmas = []  # (name, props, hyps[expr], goal expr, binders)
         self.externals = {}  # dotted name -> python handler(engine, st, args, kwargs, node) -> SV
+        self.specbuiltins = {}  # name -> handler(engine, node, st, ctx) -> SV
+        self.z3axioms = []  # (name, builder(engine) -> [z3 formulas], text)  TRUSTED
+        self.z3lemmas = []  # (name, props, builder(engine) -> [(label, hyps, goal)])  PROVED
 
     def contract(self, *a, **k):
         c = Contract(*a, **k)
@@ -48,6 +51,10 @@ class Registry:
     def classdecl(self, name, fields, file=None):
         self.classes[name] = {"fields": dict(fields), "file": file}
 
+    def record(self, name, fields):
+        """a dict with a fixed set of constant string keys, modelled as an object with fields"""
+        self.classes[name] = {"fields": dict(fields), "file": None, "record": True}
+
     def specfun(self, name, argtys, retty):
         self.specfuns[name] = (list(argtys), retty)
 
@@ -56,6 +63,18 @@ class Registry:
 
     def lemma(self, name, props, binders, hyps, goal):
         self.lemmas.append((name, list(props), dict(binders), list(hyps), goal))
+
+    def specbuiltin(self, name):
+        def deco(f):
+            self.specbuiltins[name] = f
+            return f
+        return deco
+
+    def axiom_z3(self, name, builder, text):
+        self.z3axioms.append((name, builder, text))
+
+    def lemma_z3(self, name, props, builder):
+        self.z3lemmas.append((name, list(props), builder))
 
     def external(self, dotted):
         def deco(f):
